@@ -186,6 +186,40 @@ def run(ctx):
         d.stop()
         if not alive1:
             oracle_fail.append({"phase": "sequential", "why": "daemon died", "status": d.status(), "stderr": d.stderr_text()[-600:]})
+        # phase 1b: process-wide state (working directory, environment) changed by one session's external calls is not seen by the
+        # next session; phase 1c: a slow consumer gets all of a large output
+        os.makedirs(os.path.join(td, "state"), exist_ok=True)
+        SETTER = ('extern fn chdir(path: string) -> int\nextern fn setenv(name: string, value: string, overwrite: int) -> int\nfn main() -> int {\n    let mut r: int = 0\n'
+                  '    unsafe { set r (chdir "/") }\n    (println (+ "chdir -> " (int_to_string r)))\n    unsafe { set r (setenv "NL_C17_SESSION" "set-by-setter" 1) }\n'
+                  '    (println (+ "cwd=" (getcwd)))\n    (println (+ "env=[" (+ (getenv "NL_C17_SESSION") "]")))\n    return 0\n}\nshadow main { assert true }\n')
+        READER = 'fn main() -> int {\n    (println (+ "cwd=" (getcwd)))\n    (println (+ "env=[" (+ (getenv "NL_C17_SESSION") "]")))\n    return 0\n}\nshadow main { assert true }\n'
+        BULK = ('fn main() -> int {\n    let mut i: int = 0\n    while (< i %d) {\n        (println (+ "line " (+ (int_to_string i) " of the bulk output, padded to some length ......")))\n        set i (+ i 1)\n    }\n    return 7\n}\nshadow main { assert true }\n'
+                % (20000 if quick else 60000))
+        sm = compile_all(tdir, os.path.join(td, "state"), [("setter", SETTER), ("reader", READER), ("bulk", BULK)])
+        if len(sm) == 3:
+            d = vmd.Daemon(tdir, td, env_extra={"PATH": os.path.join(tdir, "bin") + ":" + os.environ.get("PATH", "")})
+            r1 = d.exec_blob(sm[1]["blob"])
+            for rnd in range(2):
+                s1 = d.exec_blob(sm[0]["blob"])
+                r2 = d.exec_blob(sm[1]["blob"])
+                ctx.evals += 1
+                ctx.case("state-leak round %d" % rnd)
+                if "error" in r1 or "error" in r2 or r1.get("out") != r2.get("out") or not exit_eq(r2.get("exit"), 0):
+                    oracle_fail.append({"phase": "process-wide state", "why": "a session sees the working directory / environment another session's external calls set",
+                                        "reader_before": str({k: r1.get(k) for k in ("out", "exit", "error")})[:300], "setter": str({k: s1.get(k) for k in ("out", "exit", "error")})[:300],
+                                        "reader_after": str({k: r2.get(k) for k in ("out", "exit", "error")})[:300], "source_setter": SETTER, "source_reader": READER})
+                    break
+            ref = d.exec_blob(sm[2]["blob"], timeout=120.0)
+            slow = d.exec_blob(sm[2]["blob"], timeout=120.0, stall=7.0)
+            ctx.evals += 1
+            ctx.case("slow consumer")
+            if "error" in ref or "error" in slow or slow.get("out") != ref.get("out") or not exit_eq(slow.get("exit"), 7) or b"line 0 " not in (ref.get("out") or b""):
+                a, b = (ref.get("out") or b""), (slow.get("out") or b"")
+                oracle_fail.append({"phase": "slow consumer", "why": "a client that starts reading 7 s late does not receive the complete output (%d of %d bytes, %d of %d lines)" % (len(b), len(a), b.count(b"\n"), a.count(b"\n")),
+                                    "exit_prompt": ref.get("exit"), "exit_slow": slow.get("exit"), "error": slow.get("error"), "source": BULK})
+            if not d.alive():
+                oracle_fail.append({"phase": "process-wide state / slow consumer", "why": "daemon died", "status": d.status(), "stderr": d.stderr_text()[-600:]})
+            d.stop()
         # model tie: reply frames predicted by `serve` from the standalone observation
         lines = []
         for m in mods:
